@@ -1,6 +1,9 @@
 package ch
 
-import "context"
+import (
+	"context"
+	"sync"
+)
 
 type (
 	ctxQueryKey  struct{}
@@ -11,6 +14,10 @@ type (
 		BlocksSent      int
 		Rows            int
 		Bytes           int
+
+		// mu guards the counters: sender and receiver goroutines of
+		// the query update them concurrently.
+		mu *sync.Mutex
 	}
 )
 
@@ -22,6 +29,9 @@ func (c *Client) metricsInc(ctx context.Context, delta queryMetrics) {
 	if !ok {
 		return
 	}
+
+	v.mu.Lock()
+	defer v.mu.Unlock()
 
 	v.Bytes += delta.Bytes
 	v.Rows += delta.Rows
